@@ -58,6 +58,9 @@ SHAPES = [
     ("item-then-list", "S: B A; B: b; A: A a | EMPTY;"),
     ("bottom-up-order", "S: B c | d; A: a S; B: b A;"),
     ("glr-update-span", "S: U Y | V Y | V W k; U: u; V: u; Y: X A; X: t; W: t w; A: EMPTY;"),
+    ("twice-same-nt", "S: A x A | A x a; A: a;"),
+    ("nullable-chain-rec", "S: b S A | A; A: b A | EMPTY;"),
+    ("nullable-tail-alt", "S: a B | A S S | EMPTY; A: a; B: EMPTY;"),
 ]
 
 
